@@ -22,6 +22,7 @@ import (
 func main() {
 	debug.SetMaxStack(192 << 20) // a runaway Go recursion dies quickly instead of eating 1 GB
 	installHooks()
+	startMemWatchdog()
 	if len(os.Args) < 2 {
 		fmt.Fprintln(os.Stderr, "usage: starsim check|worker|replay|gen|fingerprint ...")
 		os.Exit(2)
@@ -94,6 +95,17 @@ type workerOut struct {
 }
 
 func runGuarded(p Prop, sc *Scenario) (res *Result) {
+	memBlown.Store(false)
+	defer func() {
+		if memBlown.Load() {
+			// generator accident (memory blow-up): discard, never report
+			memBlown.Store(false)
+			res = NewResult()
+			res.Invalid = true
+			res.Count("discarded_memory_budget", 1)
+			debug.FreeOSMemory()
+		}
+	}()
 	defer func() {
 		if r := recover(); r != nil {
 			res = NewResult()
@@ -422,6 +434,7 @@ func cmdCheck(args []string) int {
 		timeout = 6 * time.Hour
 	}
 	crashes := make([][]int, nw)
+	oomSkips := 0
 	for w := 0; w < nw; w++ {
 		wg.Add(1)
 		go func(w int) {
@@ -478,7 +491,14 @@ func cmdCheck(args []string) int {
 					return
 				}
 				fmt.Fprintf(os.Stderr, "worker %d died (%v) at scenario %d: %.300s\n", w, werr, idx, stderr.String())
-				crashes[w] = append(crashes[w], idx)
+				if es := stderr.String(); strings.Contains(es, "out of memory") || strings.Contains(es, "cannot allocate") || strings.Contains(werr.Error(), "killed") {
+					// resource exhaustion is outside every claimed property
+					mu.Lock()
+					oomSkips++
+					mu.Unlock()
+				} else {
+					crashes[w] = append(crashes[w], idx)
+				}
 				skips = append(skips, fmt.Sprint(idx))
 			}
 			b, err := os.ReadFile(out)
@@ -566,6 +586,7 @@ func cmdCheck(args []string) int {
 		}
 	}
 	agg.Counters["worker_crashes"] = int64(ncrash)
+	agg.Counters["scenarios_skipped_out_of_memory"] = int64(oomSkips)
 
 	// Handle violations: group by class, minimise one per class, confirm in a
 	// fresh process.
@@ -787,7 +808,7 @@ func cmdReplay(args []string) int {
 		fmt.Fprintln(os.Stderr, "unknown property", sc.Prop)
 		return 2
 	}
-	res := p.Run(sc)
+	res := runGuarded(p, sc)
 	if *classesOnly {
 		for _, c := range res.Classes() {
 			fmt.Println("CLASS", c)
